@@ -354,6 +354,7 @@ static bool do_op(mstate *m, op_t op, mismatch *mm, bool counting)
     const uint8_t *base = vf_live_bufptr(&L);
     uint8_t *wbuf = NULL;
     binson_writer W;
+    memset(&W, 0x77, sizeof W);      /* a writer object holding arbitrary (but fixed) bytes before init */
     size_t wcap = 0;
     mm->why[0] = 0; mm->sigctx[0] = 0;
     vf_progress++;
